@@ -128,8 +128,10 @@ theorem write_path_complete_when_drained (evs : List WBuf.Ev) (h : WBuf.pending 
 
 /-- TIE: the bookkeeping of `Connection::flush` as the translator reads it from connection.rs on this run is the
     modelled one (the unsent suffix is handed to the socket, the offset ADVANCES by what was accepted, the buffer
-    is cleared only when everything went out, replies are appended). -/
-theorem tree_write_path : Gen.writeOffsetAdvances = true := by decide
+    is cleared only when everything went out, replies are appended), and a socket that takes no more right now
+    (`WouldBlock`, the model's `write 0`) is not a failure: the rest stays pending (since 679ef7c; before, the
+    connection was closed after 100 ms and the replies were lost). -/
+theorem tree_write_path : Gen.writeOffsetAdvances = true ∧ Gen.wouldBlockKeepsPending = true := by decide
 
 /-- Why the `+=` matters: with the offset ASSIGNED (`write_offset = n`) a reply that needs three partial writes
     repeats bytes on the wire — the client would read garbage after a large reply. -/
